@@ -87,6 +87,23 @@ CHECKS = {
             "that emitted an alert on the resumed session must have dropped it from its store and not offer it again.",
             "Secrets are compared as byte strings, except that HMAC-equivalent keys (zero-extended) are not generated as a mismatch.",
             "DESIGN.md §4 C14"),
+    "C15": ("exploration",
+            "runtime monitoring of address-migration scenarios: a held virtual-time network on which the harness chooses the "
+            "source address and instant of every delivery, with byte accounting per address, RemoteAddr() sampled at every "
+            "quiescent point and a wire scan for connection IDs; plus a real listener on loopback UDP with clients that re-send "
+            "from fresh sockets",
+            "14 scenarios (genuine rebinding and return, dropped challenge, late / third-address / forged responses under the "
+            "real keys, replayed, stale, garbage records from a new address, two candidates, writes during validation, altered "
+            "connection ID, many small records) x DTLS 1.2/1.3 x five connection-ID layouts x return-routability negotiated or "
+            "stripped from the hello x either endpoint observed. After every step: bytes emitted to an address not yet switched to "
+            "<= 3 x bytes delivered from it and only if a fresh genuine record came from it; RemoteAddr() changes only with RRC "
+            "negotiated, after such a record and a datagram the peer produced after seeing the challenge, delivered from that "
+            "address within 1 s; every protected record carries the receiver's ID; altered IDs are not delivered. Listener: "
+            "payloads of 4 clients x 3 socket changes must surface on the owning connection only.",
+            "The challenge/response records are encrypted: a response is recognised as 'a datagram the peer produced after it had "
+            "received the challenge'. The library never uses more than about a third of the 3x budget, so a larger factor is not "
+            "observable by this workload (stated in DESIGN.md).",
+            "DESIGN.md §4 C15"),
     "C18": ("exploration",
             "runtime law monitoring of every codec: decode/re-encode/decode fixed-point, value equality, trailing-junk and "
             "truncation laws, datagram partition law, on harvested real encodings, their systematic mutations and generated values",
